@@ -82,6 +82,13 @@ def compile_expression(
         >>> f = compile_expression(expr, [x, y])
         >>> f(np.array([3.0, 4.0]))  # Returns 25.0
     """
+    from optyx.core.parameters import Parameter
+
+    # A bare Parameter is compared by name, but its closure reads that very
+    # object's value: it must not be shared through the name-keyed cache.
+    if isinstance(expr, Parameter):
+        return lambda x, p=expr: p.value
+
     # Create mapping from variable name to array index
     var_indices = {var.name: i for i, var in enumerate(variables)}
 
